@@ -10,6 +10,8 @@ use crate::world::{Cond, Opts, Outcome, Scenario};
 use std::collections::{BTreeMap, BTreeSet};
 
 pub const PROGRAMS: &[&str] = &["auto", "txn", "failtxn", "exttxn", "batch2", "pipelined", "copyin", "copyout", "copyfail", "copyout-srvfail", "copyin-srvfail", "bigrow", "copyin-then-batch", "ext-copyin"];
+/// used only with a one-entry statement cache (several evictions in one batch)
+pub const CACHED_ONLY: &[&str] = &["prep3"];
 
 fn ext(tagstr: &str, sql: &str) -> Vec<u8> {
     let mut b = wire::parse("", &format!("{} /*{}*/", sql, tagstr), &[]);
@@ -100,6 +102,18 @@ pub fn program(c: usize, prog: &str, user: &str, db: &str, pw: &str) -> Script {
                 .q(&format!("SELECT 2 /*{}*/", t(1, 0)))
                 .q(&format!("SELECT big /*{} rows=3 size=4000*/", t(2, 0)))
                 .q(&format!("SELECT 3 /*{}*/", t(3, 0)));
+        }
+        "prep3" => {
+            // three named statements prepared in one batch: with a one-entry statement cache the batch evicts
+            // two statements at once, which the pooler closes on the server by itself afterwards
+            let mut b = Vec::new();
+            for (k, nm) in ["s1", "s2", "s3"].iter().enumerate() {
+                b.extend(wire::parse(nm, &format!("SELECT {} /*{}*/", k, t(0, k)), &[]));
+            }
+            b.extend(wire::bind("", "s3", &[], &[], &[]));
+            b.extend(wire::execute("", 0));
+            b.extend(wire::sync());
+            s = s.send_z(b, "P(s1) P(s2) P(s3) B(s3) E S").q(&format!("SELECT 3 /*{}*/", t(1, 0))).q(&format!("SELECT 4 /*{}*/", t(2, 0)));
         }
         "ext-copyin" => {
             // COPY IN over the extended protocol (libpq style): the batch's Sync is ignored by the server,
@@ -387,6 +401,10 @@ pub fn build(tier: &str) -> SimCheck {
                         scenarios.push(scenario_cached(mode, pool_size, &[p, o], Gate::PerReply, 8));
                     }
                 }
+            }
+            // a one-entry statement cache: one batch evicts several statements
+            for o in ["auto", "txn", "prep3"] {
+                scenarios.push(scenario_cached(mode, pool_size, &["prep3", o], Gate::PerReply, 1));
             }
             // three clients
             let triples: Vec<[&str; 3]> = if thorough {
